@@ -30,6 +30,8 @@ EXTENDS PySeq, Net
 Range(f) == {f[x] : x \in DOMAIN f}
 RECURSIVE JoinU(_)
 JoinU(p) == IF Len(p) = 1 THEN p[1] ELSE p[1] \o "_" \o JoinU(Tail(p))
+RECURSIVE JoinD(_)        \* identity of a bundle member: its path, joined with a separator that cannot occur in member names
+JoinD(p) == IF Len(p) = 1 THEN p[1] ELSE p[1] \o "." \o JoinD(Tail(p))
 
 (* ---------------- bundles ---------------- *)
 RECURSIVE Leaves(_, _)      \* sequence of [path, w] for the bundle definition named b
@@ -68,6 +70,9 @@ HasFormal(D, of, p) == \E f \in Range(Formals(D, of)) : f.n = p
 Formal(D, of, p) == CHOOSE f \in Range(Formals(D, of)) : f.n = p
 
 SigBits(path, n, w) == [b \in 1..w |-> <<path, "s", n, b - 1>>]
+(* bits of bundle members live in a name space of their own ("b"): a designer signal that happens to be called like a
+   flattened member (b_x beside bundle instance b) is a different object *)
+BBits(path, n, w) == [b \in 1..w |-> <<path, "b", n, b - 1>>]
 
 (* ---------------- bits of a term ---------------- *)
 (* TB: bits of term t, read at bundle-leaf path lp (<<>> for signal-like use); w = width wanted, used only by no-connects;
@@ -79,10 +84,11 @@ TB(D, m, path, t, lp, w, ctx) ==
     [] t.k = "cat"   -> Flat([k \in 1..Len(t.parts) |-> TB(D, m, path, t.parts[k], <<>>, 0, ctx)])
     [] t.k = "pref"  -> LET f  == Formal(D, InstOf(m, t.inst).of, t.port)
                             ww == IF f.bund = "" THEN f.w ELSE LeafW(D, f.bund, lp)
-                        IN SigBits(Append(path, t.inst), JoinU(<<t.port>> \o lp), ww)
-    [] t.k = "nc"    -> [b \in 1..w |-> <<path, "nc", JoinU(<<ctx[1], ctx[2]>> \o lp), b - 1>>]
-    [] t.k = "bund"  -> SigBits(path, JoinU(<<t.n>> \o lp), LeafW(D, BundOf(m, t.n), lp))
-    [] t.k = "bref"  -> SigBits(path, JoinU(<<t.root>> \o t.path \o lp), LeafW(D, BundOf(m, t.root), t.path \o lp))
+                        IN IF f.bund = "" THEN SigBits(Append(path, t.inst), t.port, ww)
+                           ELSE BBits(Append(path, t.inst), JoinD(<<t.port>> \o lp), ww)
+    [] t.k = "nc"    -> [b \in 1..w |-> <<path, "nc", JoinD(<<ctx[1], ctx[2]>> \o lp), b - 1>>]
+    [] t.k = "bund"  -> BBits(path, JoinD(<<t.n>> \o lp), LeafW(D, BundOf(m, t.n), lp))
+    [] t.k = "bref"  -> BBits(path, JoinD(<<t.root>> \o t.path \o lp), LeafW(D, BundOf(m, t.root), t.path \o lp))
     [] t.k = "anon"  -> LET mem == CHOOSE x \in Range(t.mem) : x.n = lp[1] IN TB(D, m, path, mem.t, Tail(lp), w, ctx)
 
 IsBundleTerm(D, m, t) ==
@@ -105,7 +111,7 @@ ConnEdges(D, m, path, inst, c) ==
      ELSE IF f.bund # ""
      THEN \* bundle-valued port: leaf by leaf, the same bundle to every element
           UNION { UNION { LET lf == Leaves(D, f.bund)[l]
-                              F  == SigBits(Append(path, es[k]), JoinU(<<c.p>> \o lf.path), lf.w)
+                              F  == BBits(Append(path, es[k]), JoinD(<<c.p>> \o lf.path), lf.w)
                               A  == TB(D, m, path, c.t, lf.path, lf.w, ctx)
                           IN { <<F[b], A[b]>> : b \in 1..lf.w } : l \in 1..Len(Leaves(D, f.bund)) } : k \in 1..Len(es) }
      ELSE IF inst.kind = "pair" /\ IsBundleTerm(D, m, c.t)
@@ -139,8 +145,13 @@ TopPortBits(D) ==
   \cup UNION { UNION { Range(SigBits(<<>>, JoinU(<<b.n>> \o l.path), l.w)) : l \in Range(Leaves(D, b.of)) }
              : b \in {x \in Range(m.bundles) : x.port} }
 
+(* a bundle-valued port of the top module is observable as the flattened scalar ports (C10 names them) *)
+TopBundleEdges(D) ==
+  LET m == D.mods[D.top] IN
+  UNION { UNION { {<<SigBits(<<>>, JoinU(<<b.n>> \o l.path), l.w)[k], BBits(<<>>, JoinD(<<b.n>> \o l.path), l.w)[k]>> : k \in 1..l.w}
+                  : l \in Range(Leaves(D, b.of)) } : b \in {x \in Range(m.bundles) : x.port} }
 Observables(D) == LeafBits(D, D.top, <<>>) \cup TopPortBits(D)
-Denote(D) == ObsPartition(Edges(D, D.top, <<>>), Observables(D))
+Denote(D) == ObsPartition(Edges(D, D.top, <<>>) \cup TopBundleEdges(D), Observables(D))
 
 (* the leaf devices: <<hierarchical path, target>> *)
 RECURSIVE LeafTable(_, _, _)
